@@ -197,11 +197,33 @@ fn analyzer_route(thorough: bool) -> (u64, Vec<(String, String, String)>) {
                     let t3 = text.clone();
                     let diag = guarded(move || {
                         let a = abasic_core::SourceFileAnalyzer::analyze(t3);
-                        a.messages().iter().filter_map(|m| a.source_file_map().map_to_source(m)).collect::<Vec<_>>()
+                        a.messages()
+                            .iter()
+                            .filter_map(|m| {
+                                let text = match m {
+                                    abasic_core::DiagnosticMessage::Warning(_, _, s) => s.clone(),
+                                    abasic_core::DiagnosticMessage::Error(_, e) => e.to_string(),
+                                };
+                                a.source_file_map().map_to_source(m).map(|(l, r)| (l, r, text))
+                            })
+                            .collect::<Vec<_>>()
                     });
                     if let Ok(diag) = diag {
-                        for (dl, dr) in diag {
+                        for (dl, dr, dtext) in diag {
                             let Some(line) = lines.get(dl) else { continue };
+                            // a message that quotes a name points at that name
+                            if let Some(name) = dtext.split('\'').nth(1) {
+                                if dtext.contains("is never") {
+                                    let at = line.get(dr.clone()).unwrap_or("").to_uppercase().replace(' ', "");
+                                    if at != name.to_uppercase() {
+                                        return Some((
+                                            "diagnostic about a name points at other text".into(),
+                                            format!("file {:?}: {:?} is located at line {} range {:?} = {:?}", text, dtext, dl, dr, line.get(dr.clone())),
+                                            text,
+                                        ));
+                                    }
+                                }
+                            }
                             let Some((_, skip)) = parse_line_number(line) else { continue };
                             if let Ok(toks) = tokenize_skipping(line, skip) {
                                 let on_token = toks.iter().any(|t| t.1 == dr) || (dr.start <= skip && dr.end <= skip) || toks.is_empty();
